@@ -734,8 +734,23 @@ def run_mutated_impl(h, k):
                 else:
                     sim.update_scheduler(Crashing(make_scheduler(h), None, []))
             mutate_after_interruption(sim, h)
-            sim.run()
+            try:
+                sim.run()
+            except INTERRUPTS:
+                raise
+            except Exception as e:   # noqa
+                # the changed scenario may legitimately end in an error of the simulated system (e.g. round robin
+                # handing a dead-band pilot to a DeadbandEVSE once the limit is halved: InvalidRateError); what C09
+                # demands is that both resumptions behave alike, so the error class is the outcome compared
+                out.append("raised %s" % type(e).__name__)
+                continue
             out.append(numeric(sim))
+        if isinstance(out[0], str) or isinstance(out[1], str):
+            if out[0] == out[1]:
+                return None
+            return ("interrupted at call %d, events added and constraint changed: resumed in place %s, after a JSON "
+                    "round trip %s" % (k, out[0] if isinstance(out[0], str) else "completed",
+                                       out[1] if isinstance(out[1], str) else "completed"))
         d = first_diff(out[0], out[1])
         return None if d is None else "interrupted at call %d, events added and constraint changed, resumed in place vs after a JSON round trip: %s differs" % (k, d)
     except Exception as e:   # noqa
